@@ -274,6 +274,13 @@ EvCas ==
   /\ Judge(IF E.ok THEN {} ELSE {"C10"})
   /\ UNCHANGED <<b, g, met, owed, lost, imported, src, known>>
 
+(* C02 over HTTP under the real clock (harness: realtime_order_probe): the frame of an upload that completes after  *)
+(* another append was read sorts after it and reaches a poller resuming from it                                    *)
+EvOrder ==
+  /\ Is("order")
+  /\ Judge(IF E.ok THEN {} ELSE {"C02", "C13"})
+  /\ UNCHANGED <<b, g, met, owed, lost, imported, src, known>>
+
 (* a panic inside the code under test, or a store that does not open any more, is an  *)
 (* observation no behaviour of the specification explains                              *)
 EvPanic ==
@@ -290,12 +297,12 @@ EvCrash ==
 EvOther ==
   /\ l <= Len(Rec)
   /\ E.e \notin {"reset", "append", "import", "remove", "tick", "read", "get", "head", "dump", "drain",
-                 "reopen", "xfer_begin", "xfer_end", "panic", "crash", "bad", "followprobe", "cas", "slowread"}
+                 "reopen", "xfer_begin", "xfer_end", "panic", "crash", "bad", "followprobe", "cas", "slowread", "order"}
   /\ l' = l + 1
   /\ UNCHANGED <<b, g, met, owed, lost, imported, src, bad, known>>
 
 Next == Reset \/ EvAppend \/ EvImport \/ EvRemove \/ EvTick \/ EvRead \/ EvReadTail \/ EvGet \/ EvHead \/ EvDump
-        \/ EvDrain \/ EvReopen \/ EvXferBegin \/ EvXferEnd \/ EvPanic \/ EvCrash \/ EvBad \/ EvFollowProbe \/ EvCas \/ EvSlowRead \/ EvOther
+        \/ EvDrain \/ EvReopen \/ EvXferBegin \/ EvXferEnd \/ EvPanic \/ EvCrash \/ EvBad \/ EvFollowProbe \/ EvCas \/ EvSlowRead \/ EvOrder \/ EvOther
 
 Spec == Init /\ [][Next]_tvars
 
